@@ -78,7 +78,29 @@ def withitems_subwf_pause():
     return None
 
 
+def withitems_rerun_concurrency():
+    """with-items task with concurrency below the item count, repeated
+    rerun with reset: an item index ends with two accepted executions."""
+    import json
+    import os
+    from mv import runner
+    from mv.props import c12
+    path = os.path.join(runner.VERIF, 'known',
+                        'C12-withitems-rerun-concurrency.json')
+    with open(path) as f:
+        d = json.load(f)
+    case = dict(d['case'])
+    case['allow_known'] = True
+    viol = c12.check_case(case)
+    if viol:
+        return ('withitems-rerun-concurrency: with-items task (4 items, '
+                'concurrency 3, item 0 fails), rerun with reset twice: %s '
+                '(%s)' % (viol[0]['kind'], str(viol[0]['detail'])[:160]))
+    return None
+
+
 SUBCHECKS = {'join-retrigger': join_retrigger,
+             'withitems-rerun-concurrency': withitems_rerun_concurrency,
              'withitems-subwf-pause': withitems_subwf_pause}
 
 
